@@ -34,6 +34,11 @@ func init() {
 				}
 			}
 			ob.Check(puts, nil, "applying a block does not put its best-index entry")
+			if puts {
+				stateStepOnEveryPath(c, f, "apply-state-on-every-path", func(fn *types.Func) bool {
+					return fn == ph.Obj || (bw[fn] && reaches(c.P, fn, rawPut, 3))
+				}, "applying a block can return at %s without recording its best-index entry and Height")
+			}
 		}
 	}})
 }
